@@ -242,6 +242,12 @@ pub enum Mutation {
     SwapFields(u8, u8),
     /// re-encode with field `i` repeated (tag order no longer strictly ascending)
     RepeatField(u8),
+    /// re-encode without field `i` (a well-formed message that lacks NONC, VER, the padding, ...)
+    DropField(u8),
+    /// re-encode with one more field (a known tag, `len` zero bytes) at its place in tag order
+    AppendField { tag: u32, len: u16 },
+    /// overwrite the `index`-th offset word of the (possibly framed) message header
+    SetOffset { index: u8, value: u32 },
 }
 
 #[derive(Serialize, Deserialize, Clone, Debug, PartialEq)]
